@@ -1,7 +1,7 @@
 """C09 — variance minimisation keeps the fit quality and minimises capture variance."""
 import numpy as np
 from fractions import Fraction
-from common import F, rs, vs, ms, dyadic, close, call, parse_rat
+from common import F, rs, vs, ms, dyadic, close, call, parse_rat, as_given
 from systems import gen_A, gen_K, gen_baseline, apply_K
 from fitlib import K_text, ub_text, parse_prep, certify_rows, fsqrt
 from certlib import dual_hints, cert_args_text
@@ -14,7 +14,12 @@ def run(R):
     R.rule = ("systems 2-4 receptors with 0-3 surplus sources (exactly determined included), finite ub, lb zero/positive, K "
               "none/scalar/vector/matrix, baseline, weights; in- and out-of-gamut targets; variance matrices: default "
               "('heteroscedastic' = squared transformed capture matrix), explicit (propagated through K squared), derived from a "
-              "registered filter uncertainty (estimator); with and without an L1 request. For every row: the attainable error is the "
+              "registered filter uncertainty (estimator); explicit matrices reach the code as an argument of lsq_linear_minimize, registered with "
+              "register_system(Epsilon=) or passed to minimize_variance(Epsilon=), as float/whole-number integer/Fortran/strided arrays; the default as None, "
+              "the string 'heteroscedastic' or the estimator's default. Histories: ONE estimator (and one caller-held variance array) per system, the "
+              "inside and the outside target are fitted one after the other on it and every predicate is evaluated on every call against the "
+              "variance VALUES registered at the start (stratified: every block of 5 systems has a matrix-K/default and a non-uniform-vector-K/"
+              "array-valued system); registered state and arguments must be unchanged after each call. With and without an L1 request. For every row: the attainable error is the "
               "exact bounded-LS optimum (Lean-verified KKT); dreye's answer must stay within l2_eps of it, inside the L1 window, "
               "report B_var = eps x^2 exactly, and carry a certificate var(x) <= var(y) + delta for EVERY y of the second-stage set "
               "(theorem minvar_opt_of_cert). Non-trivial: every row (the variance objective is never trivially optimal).")
@@ -22,31 +27,59 @@ def run(R):
     rows1 = []
     for si in range(nsys):
         rng = R.rng(1, si)
+        strat = si % 5       # stratification: 0 = matrix K / default model, 1 = non-uniform vector K / array-valued model, others random
         nf = int(rng.integers(2, 5)); ns = nf + int(rng.integers(0, 4))
         A = gen_A(rng, nf, ns, lo=0.25, hi=3.0, bits=2)
-        kk, K = gen_K(rng, nf, kinds=(("matrix",) if si % 5 == 0 else ("none", "scalar", "vector", "matrix")))
+        kk, K = gen_K(rng, nf, kinds=(("matrix",) if strat == 0 else ("vector",) if strat == 1 else ("none", "scalar", "vector", "matrix")))
+        if kk == "vector" and strat == 1:
+            while np.all(K == K[0]):
+                K = dyadic(rng, 0.5, 2, 2, size=nf)
         bk, base = gen_baseline(rng, nf)
         lb = np.zeros(ns) if rng.integers(2) else dyadic(rng, 0.0625, 0.25, 4, size=ns)
         ub = lb + dyadic(rng, 1, 3, 2, size=ns)
         Ap, bp = apply_K(A, K, base)
         w = None if rng.integers(2) else dyadic(rng, 0.5, 2, 2, size=nf)
         wv = np.ones(nf) if w is None else w
-        ek = "default" if si % 5 == 0 else str(rng.choice(["default", "explicit", "uncertainty"]))
-        Eps = None
-        via = "function"
+        ek = "default" if strat == 0 else str(rng.choice(["explicit", "uncertainty"] if strat == 1 else ["default", "explicit", "uncertainty"]))
+        Eps = None          # pristine VALUES of the variance matrix (what the model sees); never handed to the implementation
+        Eps_given = None    # the caller's array: the same object is handed to every call of this system's history
+        sigf = None
+        via = "function"; route = "none"
         filt = np.hstack([np.zeros((nf, 1)), A, np.zeros((nf, 1))]); src = np.hstack([np.zeros((ns, 1)), np.eye(ns), np.zeros((ns, 1))])
         if ek == "explicit":
-            Eps = dyadic(rng, 0.125, 2, 3, size=(nf, ns))
-        elif ek == "default" and (si % 2 == 0 or si % 5 == 0):
-            via = "estimator"; sigf = None
+            # whole-number variances now and then (so that an integer-dtype matrix is a legitimate representation)
+            Eps = dyadic(rng, 1, 4, 0, size=(nf, ns)) if rng.integers(4) == 0 else dyadic(rng, 0.125, 2, 3, size=(nf, ns))
+            Eps_given = as_given(rng, Eps.copy(), R, "Epsilon", kinds=("same", "int", "fortran", "strided"))
+            route = str(rng.choice(["array", "registered", "argument"]))
+            via = "function" if route == "array" else "estimator"
+        elif ek == "default":
+            if si % 2 == 0 or strat == 0:
+                via = "estimator"; route = "estimator-default"
+            else:
+                route = str(rng.choice(["none", "string"]))
         elif ek == "uncertainty":
-            via = "estimator"
+            via = "estimator"; route = "uncertainty"
             sigf = np.hstack([np.zeros((nf, 1)), dyadic(rng, 0.125, 1, 3, size=(nf, ns)), np.zeros((nf, 1))])   # std of the filters
             Eps = (sigf[:, 1:-1] ** 2)        # capture of sigma_f^2 x source^2 with unit sources: entry (c,k) = sigma_ck^2
-        for ti, tk in enumerate(["inside", "outside"]):
-            k = "s%d_%s" % (si, tk)
-            if not R.want(k):
-                continue
+        A_given = as_given(rng, A.copy(), R, "A", kinds=("same", "fortran", "strided")) if via == "function" else A
+        targets = ["inside", "outside"]
+        keys = ["s%d_%s" % (si, tk) for tk in targets]
+        if not any(R.want(k) for k in keys):
+            continue
+        # ONE estimator (and one caller-held variance array) per system: the targets are fitted one after the other on it,
+        # as a user's session would; the property has to hold for every call of such a history, not only for the first
+        est = None; stE = "ok"; outE = None
+        if via == "estimator":
+            stE, est = call(dreye.ReceptorEstimator, filt, domain=1.0, filters_uncertainty=sigf, K=(1.0 if K is None else K), baseline=base,
+                            w=(1.0 if w is None else w), sources=src, lb=lb, ub=ub)
+            if stE == "ok" and route == "registered":
+                stE, outE = call(est.register_system, src, lb=lb, ub=ub, Epsilon=Eps_given)
+                if stE == "ok":
+                    outE = None
+            elif stE != "ok":
+                outE, est = est, None
+        for ti, tk in enumerate(targets):
+            k = keys[ti]
             rr = R.rng(2, si, ti)
             xt = lb + dyadic(rr, 0.25, 0.75, 3, size=ns) * (ub - lb)
             b = Ap @ xt + bp
@@ -56,23 +89,29 @@ def run(R):
             useL1 = bool(rr.integers(3) == 0) and tk == "inside"
             L1 = float(np.sum(xt)) if useL1 else None
             l1eps = 1e-2
-            c = dict(k=k, target=tk, nf=nf, ns=ns, A=A, K=K, K_kind=kk, baseline=base, baseline_kind=bk, lb=lb, ub=ub, w=w, b=b, eps_kind=ek, Epsilon=Eps,
-                     l2_eps=l2eps, L1=L1, l1_eps=l1eps, via=via)
-            for key in ("target", "K_kind", "baseline_kind", "eps_kind"):
+            c = dict(k=k, target=tk, nf=nf, ns=ns, A=A, K=K, K_kind=kk, baseline=base, baseline_kind=bk, lb=lb, ub=ub, w=w, b=b, eps_kind=ek,
+                     Epsilon=Eps, eps_route=route, l2_eps=l2eps, L1=L1, l1_eps=l1eps, via=via, call_index=ti, earlier_calls=keys[:ti])
+            # the implementation is run for every step of the history (also when only a later step is selected by --case)
+            if via == "estimator":
+                if stE != "ok":
+                    st, out = stE, outE
+                else:
+                    kw = dict(Epsilon=Eps_given) if route == "argument" else {}
+                    st, out = call(est.minimize_variance, b[None], l2_eps=l2eps, L1=L1, l1_eps=l1eps, **kw)
+                    if st == "ok" and route in ("uncertainty", "registered"):
+                        c["estimator_Epsilon"] = np.array(est.Epsilon, dtype=float)
+            else:
+                ea = "heteroscedastic" if route == "string" else Eps_given
+                st, out = call(lsq_linear_minimize, A_given, b[None], ea, lb=lb, ub=ub, W=w, K=K, baseline=base, l2_eps=l2eps, L1=L1, l1_eps=l1eps, return_pred=True)
+            if not R.want(k):
+                continue
+            for key in ("target", "K_kind", "baseline_kind", "eps_kind", "eps_route", "via", "call_index"):
                 R.count("%s:%s" % (key, c[key]))
             R.count("L1:%s" % useL1); R.count("shape:%s" % ("under" if ns > nf else "exact"))
-            if via == "estimator":
-                def impl():
-                    est = dreye.ReceptorEstimator(filt, domain=1.0, filters_uncertainty=sigf, K=(1.0 if K is None else K), baseline=base, w=(1.0 if w is None else w),
-                                                  sources=src, lb=lb, ub=ub)
-                    return est.minimize_variance(b[None], l2_eps=l2eps, L1=L1, l1_eps=l1eps), np.asarray(est.Epsilon)
-                st, out = call(impl)
-                if st == "ok":
-                    out, eps_est = out
-                    if ek == "uncertainty":
-                        c["estimator_Epsilon"] = eps_est
-            else:
-                st, out = call(lsq_linear_minimize, A, b[None], Eps, lb=lb, ub=ub, W=w, K=K, baseline=base, l2_eps=l2eps, L1=L1, l1_eps=l1eps, return_pred=True)
+            if kk == "vector":
+                R.count("K_vector:%s" % ("uniform" if np.all(K == K[0]) else "nonuniform"))
+            if Eps is not None and kk == "vector" and not np.all(K == K[0]) and ti > 0:
+                R.count("repeated call with array-valued variance model and non-uniform vector K")
             st0, out0 = call(lsq_linear, A, b[None], lb=lb, ub=ub, W=w, K=K, baseline=base, return_pred=True)
             if Eps is None:
                 R.driver.ask("E" + k, "epsmodel", ns, K_text(K), ms(A), "hetero")
@@ -142,7 +181,8 @@ def run(R):
             em = np.array([[float(v) for v in r_] for r_ in job["EpsM"]])
             # the estimator's default model: registered filter uncertainty (before K-propagation: compare the raw matrix)
             if np.max(np.abs(c["estimator_Epsilon"] - c["Epsilon"])) > 1e-12:
-                R.failB(dict(c), "default variance model is not the capture of the registered filter uncertainty", sig + ":default-eps")
+                R.failB(dict(c), "the estimator's variance model after call %d is not the %s" % (c["call_index"] + 1, "registered variance matrix" if c["eps_route"] == "registered"
+                        else "capture of the registered filter uncertainty"), sig + ":default-eps")
         best = None
         for hi in range(job.get("nh", 0)):
             tt = R.driver.get("v%s_%d" % (k, hi))
